@@ -632,7 +632,7 @@ theorem InitOK.of_same {σ τ : SM} (hs : Same idle σ τ) (h : InitOK idle σ) 
   unfold InitOK at *; rw [hs.fresh, hs.init]; exact h
 
 theorem stepOK_interruptArm (cfg : Cfg) (P : Prog) {σ : SM} (h : Inv0 idle ml σ)
-    (hsf : σ.statefunc.isSome = true) (hnt : σ.nextTask.isSome = true) (hre : σ.reason = none) :
+    (hsf : σ.statefunc.isSome = true) (_hnt : σ.nextTask.isSome = true) (hre : σ.reason = none) :
     StepOK idle ml (K idle σ) (interruptArm cfg P σ) := by
   obtain ⟨h1, s1⟩ := inv_absorb cfg P h
   unfold interruptArm
@@ -876,5 +876,107 @@ theorem settled_outer (cfg : Cfg) (P : Prog) (hml : cfg.maxloops = ml) (n : Nat)
     | next τ =>
       simp only
       exact ih h1.1 h1.2.1 (by have := h1.2.2.2; rw [Nat.add_mul] at hk; omega) (fun _ => h1.2.2.1)
+
+/-! ### `cycle`, operations, runs -/
+
+/-- between operations -/
+def Stable (idle : Status) (ml : Nat) (σ : SM) : Prop := Inv0 idle ml σ ∧ InitOK idle σ
+
+theorem stable_cycle (cfg : Cfg) (P : Prog) (hml : cfg.maxloops = ml) {σ : SM} (h : Stable idle ml σ) :
+    Stable idle ml (cycle cfg P σ) := by
+  obtain ⟨h, hi⟩ := h
+  have hg := h.good
+  have hmc := h.mustCleanup; have hmi := h.mustInterrupt
+  simp only [ob] at hmc hmi
+  have h1 : Inv0 idle ml (σ.log .cycleBegin) ∧ InitOK idle (σ.log .cycleBegin) ∧ K idle (σ.log .cycleBegin) = 0 := by
+    refine ⟨⟨?_, ?_, ?_, ?_, ?_, ?_, ?_, ?_, ?_, ?_, ?_⟩, ?_, ?_⟩ <;>
+      simp only [InitOK, K, SM.log, ob, observe_snoc, Obs.step, always_snoc]
+    · refine ⟨hg, ?_⟩
+      simp [okAll, okInit, okCleanupOnce, okCleanupNotInterrupted, okStopInactive, okLastStart, okPickedUp, okBound,
+        okNoRaise, hmc, hmi]
+    · exact h.cur
+    · exact h.runCleanup
+    · exact h.interrupted
+    · exact h.pending
+    · exact h.attrs
+    · exact h.mustCleanup
+    · exact h.mustInterrupt
+    · exact h.taken
+    · exact h.j0
+    · exact h.j1
+    · exact hi
+  obtain ⟨h1, hi1, hk1⟩ := h1
+  have h2 := settled_outer cfg P hml 2 h1 hi1 (by rw [hk1]; omega) (fun hh => by cases hh)
+  unfold cycle endCycle
+  generalize outer cfg P 2 (σ.log .cycleBegin) = τ at h2 ⊢
+  obtain ⟨h2, hi2, hq2, _⟩ := h2
+  have hg2 := h2.good
+  have hmc2 := h2.mustCleanup; have hmi2 := h2.mustInterrupt; have hcur2 := h2.cur; have hpe2 := h2.pending
+  have hint2 := h2.interrupted; have htk2 := h2.taken; have hj1 := h2.j1
+  simp only [ob] at hmc2 hmi2 hcur2 hpe2 hint2 htk2 hj1
+  unfold Q at hq2
+  simp only [ob] at hq2
+  refine ⟨⟨?_, ?_, ?_, ?_, ?_, ?_, ?_, ?_, ?_, ?_, ?_⟩, ?_⟩ <;>
+    simp only [InitOK, SM.log, ob, observe_snoc, Obs.step, always_snoc]
+  · refine ⟨hg2, ?_⟩
+    simp only [okAll, okInit, okCleanupOnce, okCleanupNotInterrupted, okStopInactive, okLastStart, okPickedUp, okBound,
+      okNoRaise, hmc2, hmi2, hcur2, hpe2, hint2, htk2]
+    rcases hq2 with hq | ⟨hr, hs⟩ | hn
+    · simp [hq]
+    · simp [hr, hs]
+    · cases hlp : (observe idle τ.trace).lastPost with
+      | none => simp [hn]
+      | some r =>
+        cases r with
+        | start s cl kw ovr => simp [hn]
+        | stop st => simp [hn, hj1 st hlp hn]
+  · exact h2.cur
+  · exact h2.runCleanup
+  · exact h2.interrupted
+  · exact h2.pending
+  · exact h2.attrs
+  · exact h2.mustCleanup
+  · exact h2.mustInterrupt
+  · exact h2.taken
+  · exact h2.j0
+  · exact h2.j1
+  · exact hi2
+
+theorem stable_cycleMachine (cfg : Cfg) (P : Prog) (hml : cfg.maxloops = ml) {σ : SM} (h : Stable idle ml σ) :
+    Stable idle ml (cycleMachine cfg P σ) := by
+  have h1 := stable_cycle cfg P hml h
+  unfold cycleMachine
+  simp only
+  generalize cycle cfg P σ = τ at h1 ⊢
+  split
+  · obtain ⟨h2, s2⟩ := inv_neutral (σ := τ) (σ' := τ.log (.status τ.status)) (Or.inr ⟨_, rfl⟩)
+      rfl rfl rfl rfl rfl rfl rfl h1.1
+    exact ⟨h2, h1.2.of_same s2⟩
+  · exact h1
+
+theorem stable_stepOp (cfg : Cfg) (P : Prog) (hml : cfg.maxloops = ml) {σ : SM} (h : Stable idle ml σ) (op : Op) :
+    Stable idle ml (stepOp cfg P σ op) := by
+  cases op with
+  | cycle => exact stable_cycleMachine cfg P hml h
+  | req r =>
+    obtain ⟨h2, s2⟩ := inv_request cfg h.1 r
+    exact ⟨h2, h.2.of_same s2⟩
+
+theorem stable_initial (idle : Status) (ml : Nat) : Stable idle ml (SM.initial idle) := by
+  refine ⟨⟨always_nil _ _, rfl, rfl, rfl, rfl, rfl, rfl, rfl, rfl, ?_, ?_⟩, rfl⟩
+  · intro r hr; cases hr
+  · intro _ _ _; rfl
+
+theorem stable_run (cfg : Cfg) (P : Prog) (hml : cfg.maxloops = ml) (ops : List Op) {σ : SM} (h : Stable idle ml σ) :
+    Stable idle ml (run cfg P σ ops) := by
+  unfold run
+  induction ops generalizing σ with
+  | nil => exact h
+  | cons op ops ih => exact ih (stable_stepOp cfg P hml h op)
+
+/-- every history of the model satisfies all clause conditions that do not depend on the status rules -/
+theorem run_good (cfg : Cfg) (P : Prog) (idle : Status) (ops : List Op) :
+    Always idle (okAll cfg.maxloops) (run cfg P (SM.initial idle) ops).trace :=
+  (stable_run cfg P rfl ops (stable_initial idle cfg.maxloops)).1.good
 
 end Frappy.SM
